@@ -86,6 +86,85 @@ pub fn cells(max_len: usize, out: &mut Out) {
     }
 }
 
+/// Rank fields on clones: the `cells` shape (one parameter, two continuations of different rank, a route ending at the
+/// parameter) with *grouped* templates (shared data carrying their own depth/length), searched on the original, on a
+/// clone, and on a clone of the clone — the best-match rule reads `depth` and `length` of whatever `Clone` copied.
+pub fn clonerank(size: usize, out: &mut Out) {
+    let params = ["{a}", "{*a}", "{a:even}", "{*a:nota}"];
+    let seps = ["/", ".", "-"];
+    let conts = ["{*v}", "a/a", "a", "{b}", "{b}/c", "{bbbbbb}", "a-c", "c/z"];
+    let pre = "/";
+    let paths = all_strings(&["a", "/", ".", "c", "-"], 2 + size);
+    let toks = ["a", "c", "z"];
+    for par in params {
+        for sep in seps {
+            for i in 0..conts.len() {
+                for j in i + 1..conts.len() {
+                    for variant in 0..2 {
+                        if !out.mine() {
+                            continue;
+                        }
+                        out.reset();
+                        out.new_router(0, KEYS);
+                        let t1 = format!("{pre}{par}{sep}{}(/)", conts[i]);
+                        let t2 = if variant == 1 { format!("{pre}{par}{sep}{}(/)", conts[j]) } else { format!("{pre}{par}{sep}{}", conts[j]) };
+                        out.insert(0, &t1, 1);
+                        out.insert(0, &t2, 2);
+                        out.insert(0, &format!("{pre}{par}(/q)"), 3);
+                        out.op("clone 0 1".to_owned());
+                        out.op("clone 1 2".to_owned());
+                        let mut battery: Vec<String> = paths.iter().map(|p| format!("{pre}{p}")).collect();
+                        for n in 2..=3usize {
+                            let mut idx = vec![0usize; n];
+                            loop {
+                                for joins in 0..(1u32 << (n - 1)) {
+                                    for tail in ["", "/"] {
+                                        let mut p = String::from(pre);
+                                        for (k, t) in idx.iter().enumerate() {
+                                            if k > 0 {
+                                                p.push_str(if joins >> (k - 1) & 1 == 1 { "/" } else { sep });
+                                            }
+                                            p.push_str(toks[*t]);
+                                        }
+                                        p.push_str(tail);
+                                        battery.push(p);
+                                    }
+                                }
+                                let mut i = 0;
+                                while i < n {
+                                    idx[i] += 1;
+                                    if idx[i] < toks.len() {
+                                        break;
+                                    }
+                                    idx[i] = 0;
+                                    i += 1;
+                                }
+                                if i == n {
+                                    break;
+                                }
+                            }
+                        }
+                        for r in 0..3 {
+                            out.display(r);
+                            for p in &battery {
+                                out.search(r, p);
+                            }
+                        }
+                        // the copies stay independent: delete on the clone of the clone, then look again everywhere
+                        out.delete(2, &t1);
+                        for r in 0..3 {
+                            out.display(r);
+                            for p in battery.iter().take(40) {
+                                out.search(r, p);
+                            }
+                        }
+                    }
+                }
+            }
+        }
+    }
+}
+
 /// Sibling-order suite: templates that differ at exactly one position in kind, parameter name or constraint name
 /// (names chosen so that "alphabetical by name, then constraint" differs from other plausible orders: by length,
 /// by rendered key, by insertion), inserted in every order.
@@ -461,10 +540,10 @@ pub fn parsefocus(max_len: usize, out: &mut Out) {
     }
 }
 
-/// Histories over a printable-ASCII pool without spaces, brackets or braces in literals (so the printed tree can be
-/// parsed back unambiguously).
+/// Histories over a printable-ASCII pool without brackets or braces in literals (so the printed tree can be parsed back
+/// unambiguously); blanks inside and at the end of literals are ordinary text and must survive in the labels.
 pub fn ascii(n: usize, rng: &mut Rng, out: &mut Out) {
-    let lits = ["/", "a", "ab", "abc", "b", ".", "-", "x.y", "/a/", "//", "m", "/m/", "/a", "/b", "abd", "ac", "_", "~q"];
+    let lits = ["/", "a", "ab", "abc", "b", ".", "-", "x.y", "/a/", "//", "m", "/m/", "/a", "/b", "abd", "ac", "_", "~q", "a ", " ", "b c", "a  "];
     let names = ["a", "b", "id", "id2", "w", "v", "a-b"];
     let cons = ["alpha", "nota", "even", "u8", "hasslash"];
     for _ in 0..n {
